@@ -555,3 +555,75 @@ Theorem path_universal_newlines_refuted :
        <> Tokenizer.tokenize (Tokenizer.nexus_cfg false) (C13Newlines.delivered C13Newlines.FromData doc).
 Proof. exact C13NewlinesProofs.path_universal_newlines_refuted_l. Qed.
 Print Assumptions path_universal_newlines_refuted.
+
+(* ============ the symbol mapper: where the number table decides; TAXLABELS across routes (wave 6) ============ *)
+From DV Require Proofs.C13MapperModel.
+
+(* document hypothesis as a boolean predicate: is_digit_str sym = false (the leaf symbol is not a decimal numeral).
+   numbers_ok m (every key of the mapper's number table is a decimal numeral) is an invariant: true of a fresh mapper
+   and kept by add_translate_token, by the namespace refresh and by every resolution.  A non-numeral is resolved
+   without the number table: the same taxon and the same new member, if any, whether enable_lookup_by_taxon_number
+   is on or off - drivers that disagree on the switch read documents without numeric leaf symbols alike. *)
+Theorem non_numeral_ignores_number_switch :
+  forall (lower : str -> str),
+  (forall taxa b, C13MapperModel.numbers_ok (new_mapper lower taxa b) = true)
+  /\ (forall m tok i, C13MapperModel.numbers_ok (add_translate_token lower m tok i) = C13MapperModel.numbers_ok m)
+  /\ (forall m taxa, C13MapperModel.numbers_ok (mapper_set_ns m taxa) = C13MapperModel.numbers_ok m)
+  /\ (forall (m : mapper) (sym : str) (b : bool),
+       C13MapperModel.numbers_ok m = true -> is_digit_str sym = false ->
+       fst (require_taxon_for_symbol lower (C13MapperModel.with_switch m b) sym) = fst (require_taxon_for_symbol lower m sym)
+       /\ snd (require_taxon_for_symbol lower (C13MapperModel.with_switch m b) sym)
+          = C13MapperModel.with_switch (snd (require_taxon_for_symbol lower m sym)) b
+       /\ C13MapperModel.numbers_ok (snd (require_taxon_for_symbol lower m sym)) = true).
+Proof.
+  exact (fun lower => conj (C13MapperModel.numbers_ok_new lower)
+                     (conj (C13MapperModel.numbers_ok_translate lower)
+                     (conj C13MapperModel.numbers_ok_set_ns (C13MapperModel.N_non_numeral_ignores_switch lower)))).
+Qed.
+Print Assumptions non_numeral_ignores_number_switch.
+
+Theorem non_numeral_hypotheses_satisfiable :
+  C13MapperModel.numbers_ok (new_mapper (lower_with []) [q "a"; q "b"] true) = true /\ is_digit_str (q "b") = false.
+Proof. exact C13MapperModel.numbers_hypotheses_satisfiable. Qed.
+Print Assumptions non_numeral_hypotheses_satisfiable.
+
+(* without the hypothesis the statement is FALSE: over {a, b} the numeral "1" is the first member with the switch on
+   and a NEW taxon labelled "1" with the switch off *)
+Theorem number_switch_matters_refuted :
+  exists (taxa : list str) (sym : str),
+    is_digit_str sym = true
+    /\ fst (require_taxon_for_symbol (lower_with []) (new_mapper (lower_with []) taxa true) sym) = O
+    /\ m_ns (snd (require_taxon_for_symbol (lower_with []) (new_mapper (lower_with []) taxa true) sym)) = taxa
+    /\ fst (require_taxon_for_symbol (lower_with []) (new_mapper (lower_with []) taxa false) sym) = 2%nat
+    /\ m_ns (snd (require_taxon_for_symbol (lower_with []) (new_mapper (lower_with []) taxa false) sym)) = taxa ++ [sym].
+Proof. exact C13MapperModel.N_switch_matters_refuted_l. Qed.
+Print Assumptions number_switch_matters_refuted.
+
+(* finding taxon-number-resolution at the level of ONE look-up (document level: dataset_multi_namespace_refuted):
+   a numeral is resolved by position in the WHOLE namespace the mapper manages, so which taxon a document's "1"
+   denotes depends on members the namespace had before (shared across calls / another TAXA block): a over {a, b},
+   zz over {zz, a, b}.  Labels are immune (shared_namespace_same_taxa). *)
+Theorem number_position_refuted :
+  exists (pre taxa : list str) (sym : str),
+    nth_error taxa (fst (require_taxon_for_symbol (lower_with []) (new_mapper (lower_with []) taxa true) sym)) = Some (q "a")
+    /\ nth_error (pre ++ taxa)
+         (fst (require_taxon_for_symbol (lower_with []) (new_mapper (lower_with []) (pre ++ taxa) true) sym)) = Some (q "zz").
+Proof. exact C13MapperModel.N_number_position_refuted_l. Qed.
+Print Assumptions number_position_refuted.
+
+(* TAXLABELS: the only thing the statement reads from the route is whether a namespace is attached (it suppresses
+   TooManyTaxaError).  Two routes that both get through the statement leave the namespace with the same members in
+   the same order and the tokenizer in the same state. *)
+Theorem taxlabels_route_independent :
+  forall (lower : str -> str) (c1 c2 : nscfg) (fuel : nat) (z : tz) (taxa : list str) (ntax : option Z) r1 r2,
+  taxlabels_loop lower c1 fuel z taxa ntax = Ok r1 -> taxlabels_loop lower c2 fuel z taxa ntax = Ok r2 -> r1 = r2.
+Proof. exact C13MapperModel.S_taxlabels_route_independent. Qed.
+Print Assumptions taxlabels_route_independent.
+
+Theorem taxlabels_hypotheses_satisfiable :
+  exists z r,
+    taxlabels_loop (lower_with []) (mkNsCfg true (FacFixed true)) 5 z [] (Some 1%Z) = Ok r
+    /\ taxlabels_loop (lower_with []) (mkNsCfg false FacNew) 5 z [] (Some 1%Z) = Ok r
+    /\ fst r = [q "a"].
+Proof. exact C13MapperModel.taxlabels_hypotheses_satisfiable. Qed.
+Print Assumptions taxlabels_hypotheses_satisfiable.
